@@ -450,6 +450,38 @@ def run(rep):
     qpos = [k_ for k_, s_ in enumerate(body) if find_all(s_, lambda n: n.get("kind") == "CallExpr" and text(n["inner"][0]) == "qsort")]
     cpos = [k_ for k_, s_ in enumerate(body) if find_all(s_, lambda n: n.get("kind") == "CallExpr" and text(n["inner"][0]) == "ADtest")]
     rep.check(bool(okq) and bool(qpos) and bool(cpos) and qpos[0] < cpos[0], "R10.d", adt["file"], "c_ad_test", "data sorted before the statistic is computed (result independent of the input order)", "", line=adt["line"])
+    # alpha(): (statistic, p-value) taken from each test in the order that test returns them
+    mm = Mod(rep.repo, "stat/metrics.py")
+    adw = mm.func("anderson_darling_test")
+    # kernel slot of the p-value: the output that is a function of AD(n, .)
+    oall = cq.stores(post, "outputs")
+    pslot = [e for e in oall if "AD" in show(e.val) and not cq.same_expr(e.idx, "0")]
+    kp = int(Canon().ratio(pslot[0].idx).cval()) if len(pslot) == 1 and Canon().ratio(pslot[0].idx).is_const() else None
+    wret = [p_ for p_ in pq.PEval().run(adw) if p_.how == "return"]
+    wk = None
+    if kp is not None and len(wret) == 1 and wret[0].value[0] == 'tuple':
+        for k_, x in enumerate(wret[0].value[1]):
+            if pq.call_named(x, "getitem") and x[2][1][0] == 'num' and int(x[2][1][1]) == kp:
+                wk = k_
+    alf = mm.func("alpha")
+    aret = [p_ for p_ in pq.PEval().run(alf) if p_.how == "return" and any(t and c[0] == 'cmp' and c[1] == '==' and c[3] == ('sym', "'AD'") for c, t in pq.flat_conds(p_.conds))]
+    if wk is None or not aret:
+        rep.undecided("R10.d", "stat/metrics.py", "alpha", "Anderson-Darling branch returns the p-value of the test", f"p-value slot kernel {kp}, wrapper {wk}, {len(aret)} AD path(s)", line=alf.lineno)
+    else:
+        okad = True
+        det = ""
+        for p_ in aret:
+            v = p_.value
+            if not (v[0] == 'tuple' and len(v[1]) >= 2 and all(pq.call_named(x, "getitem") and pq.call_named(x[2][0], "f:anderson_darling_test") for x in v[1][:2])):
+                okad, det = None, show(v)[:120]
+                break
+            ks = [int(x[2][1][1]) for x in v[1][:2]]
+            if ks != [1 - wk, wk]:
+                okad, det = False, f"alpha returns elements {ks} of the test's result as (statistic, p-value); the test returns the p-value at position {wk}"
+        if okad is None:
+            rep.undecided("R10.d", "stat/metrics.py", "alpha", "Anderson-Darling branch returns the p-value of the test", det, line=alf.lineno)
+        else:
+            rep.check(okad, "R10.d", "stat/metrics.py", "alpha", "Anderson-Darling branch returns (statistic, p-value) in the order anderson_darling_test returns them", det, line=alf.lineno)
     return EXPLANATION
 
 
